@@ -657,6 +657,12 @@ func runRound(c cfg, sample bool) {
 		res.SweeperGone++
 	} else {
 		F("leak", "", "30s after cancelling the construction context a goroutine created by NewFifoMapCache is still alive: "+storageFrames())
+		// a leaked goroutine never goes away and would fail every later round: stop here
+		res.Rounds++
+		res.PerScenario[c.Scenario]++
+		res.Scope = "stopped after the first leaked ticker goroutine"
+		flush()
+		os.Exit(0)
 	}
 	res.Rounds++
 	res.PerScenario[c.Scenario]++
@@ -696,18 +702,18 @@ func main() {
 	var scope []string
 	if *family == "A" {
 		// the refutation witness of Findings/CacheConc.v first: capacity 2 = one partition of 2, two writers, one new key each
-		n := scale(1500, 30000)
+		n := scale(1500, 60000)
 		for i := 0; i < n; i++ {
 			run(cfg{Scenario: "A-witness", Cap: 2, Writers: 2, OwnKeys: 1, Ops: 1, Within: true, SweepFreqU: 50}, i)
 		}
 		scope = append(scope, fmt.Sprintf("%d x A-witness (capacity 2, 2 writers x 1 new key: the schedule family of lost_insert_refuted)", n))
 		// DESIGN.md's shape: 16 goroutines x 4 distinct keys, capacity 64
-		n = scale(150, 3000)
+		n = scale(150, 8000)
 		for i := 0; i < n; i++ {
 			run(cfg{Scenario: "A-16x4", Cap: 64, Writers: 16, OwnKeys: 4, Ops: 4, Within: true, SweepFreqU: freq(), Readers: i % 2, Sweepers: i % 2}, i)
 		}
 		scope = append(scope, fmt.Sprintf("%d x A-16x4 (capacity 64, 16 writers x 4 distinct keys)", n))
-		n = scale(150, 3000)
+		n = scale(150, 8000)
 		for i := 0; i < n; i++ {
 			cp := caps[rng.Intn(len(caps))]
 			w := 2 + rng.Intn(15)
@@ -722,7 +728,7 @@ func main() {
 				Readers: rng.Intn(4), Sweepers: rng.Intn(3)}, i)
 		}
 		scope = append(scope, fmt.Sprintf("%d x A-within (capacities %v, 2-16 writers, distinct keys <= Capacity(), re-sets and owner reads, 0-3 readers, 0-2 sweepers)", n, caps))
-		n = scale(120, 2500)
+		n = scale(120, 8000)
 		for i := 0; i < n; i++ {
 			cp := caps[rng.Intn(len(caps))]
 			w := 2 + rng.Intn(15)
@@ -732,14 +738,14 @@ func main() {
 		}
 		scope = append(scope, fmt.Sprintf("%d x A-churn (1-4x more single-writer keys than capacity, Set/Delete/Get by the owner, readers, sweepers, ticker every 50-1000us)", n))
 	} else {
-		n := scale(150, 3000)
+		n := scale(150, 8000)
 		for i := 0; i < n; i++ {
 			cp := caps[rng.Intn(len(caps))]
 			run(cfg{Scenario: "B-samekey", Cap: cp, Writers: 2 + rng.Intn(15), OwnKeys: rng.Intn(3), HotKeys: 1 + rng.Intn(cp), Ops: 10 + rng.Intn(100),
 				Deletes: rng.Intn(3) == 0, SweepFreqU: freq(), Readers: rng.Intn(3), Sweepers: rng.Intn(2)}, i)
 		}
 		scope = append(scope, fmt.Sprintf("%d x B-samekey (hot keys written by 2-16 writers, no Clear/Resize: K3 expected, no race report expected)", n))
-		n = scale(100, 2000)
+		n = scale(100, 5000)
 		for i := 0; i < n; i++ {
 			cp := caps[2+rng.Intn(len(caps)-2)]
 			w := 2 + rng.Intn(10)
@@ -748,7 +754,7 @@ func main() {
 				Readers: 1 + rng.Intn(3), Sweepers: rng.Intn(2), Clearers: cl, Resizers: rz}, i)
 		}
 		scope = append(scope, fmt.Sprintf("%d x B-clear (single-writer keys + concurrent Clear/Resize: K1 expected)", n))
-		n = scale(80, 1500)
+		n = scale(80, 4000)
 		for i := 0; i < n; i++ {
 			cp := caps[2+rng.Intn(len(caps)-2)]
 			run(cfg{Scenario: "B-all", Cap: cp, Writers: 2 + rng.Intn(10), OwnKeys: 1 + rng.Intn(4), HotKeys: 1 + rng.Intn(cp), Ops: 30 + rng.Intn(200),
